@@ -88,15 +88,39 @@ pub struct IdTok {
     /// ids of the tokens this one replaced (only for tokens built by `Replace::replace`)
     pub replaced: Vec<u64>,
     pub is_replacement: bool,
+    /// speech timing in milliseconds (0, 0 = not time-stamped): a time-stamped token is unrelated to its predecessor when
+    /// the silence between them exceeds PAUSE_MS, like the ASR example of the crate documentation
+    pub start: u64,
+    pub end: u64,
 }
+
+pub const PAUSE_MS: u64 = 100;
 
 impl IdTok {
     pub fn new(id: u64, text: &str) -> IdTok {
-        IdTok { id, text: text.to_string(), lower: text.to_lowercase(), sep: false, nan: false, replaced: vec![], is_replacement: false }
+        IdTok { id, text: text.to_string(), lower: text.to_lowercase(), sep: false, nan: false, replaced: vec![], is_replacement: false, start: 0, end: 0 }
+    }
+    pub fn timed(id: u64, text: &str, start: u64, end: u64) -> IdTok {
+        IdTok { start, end, ..IdTok::new(id, text) }
     }
     pub fn show(&self) -> String {
         format!("{}{}{:?}", if self.sep { "^" } else { "" }, if self.nan { "!" } else { "" }, self.text)
     }
+}
+
+thread_local! {
+    static NT_LOG: std::cell::RefCell<Option<Vec<(u64, u64)>>> = const { std::cell::RefCell::new(None) };
+}
+
+/// start recording the (token id, id of the token passed as `previous`) pairs of every `nt_separated` call made on this
+/// thread
+pub fn nt_log_start() {
+    NT_LOG.with(|l| *l.borrow_mut() = Some(Vec::new()));
+}
+
+/// stop recording and return the pairs
+pub fn nt_log_take() -> Vec<(u64, u64)> {
+    NT_LOG.with(|l| l.borrow_mut().take().unwrap_or_default())
 }
 
 impl Token for &IdTok {
@@ -106,8 +130,14 @@ impl Token for &IdTok {
     fn text_lowercase(&self) -> &str {
         &self.lower
     }
-    fn nt_separated(&self, _previous: &Self) -> bool {
-        self.sep
+    fn nt_separated(&self, previous: &Self) -> bool {
+        // observation point: which token the scanner presents as "the previous one" (C15 checks it is the predecessor)
+        NT_LOG.with(|l| {
+            if let Some(v) = l.borrow_mut().as_mut() {
+                v.push((self.id, previous.id));
+            }
+        });
+        self.sep || (self.end > 0 && previous.end > 0 && self.start > previous.end + PAUSE_MS)
     }
     fn not_a_number_part(&self) -> bool {
         self.nan
@@ -117,7 +147,7 @@ impl Token for &IdTok {
 impl Replace for IdTok {
     fn replace<I: Iterator<Item = Self>>(replaced: I, data: String) -> Self {
         let ids: Vec<u64> = replaced.map(|t| t.id).collect();
-        IdTok { id: u64::MAX, lower: data.to_lowercase(), text: data, sep: false, nan: false, replaced: ids, is_replacement: true }
+        IdTok { id: u64::MAX, lower: data.to_lowercase(), text: data, sep: false, nan: false, replaced: ids, is_replacement: true, start: 0, end: 0 }
     }
 }
 
